@@ -275,12 +275,21 @@ def loop_as_comp(fi, name: str) -> VirtualComp | None:
                 filtered = True
                 fexpr = ast.UnaryOp(op=ast.Not(), operand=body[0].test)
                 body = body[1:]
+            # leading per-iteration temporaries (`validated_key = key_validator(key)`) are substituted into the store
+            temps: dict[str, ast.AST] = {}
+            while len(body) > 1 and isinstance(body[0], (ast.Assign, ast.AnnAssign)) and getattr(body[0], "value", None) is not None:
+                t0 = body[0].targets[0] if isinstance(body[0], ast.Assign) and len(body[0].targets) == 1 else getattr(body[0], "target", None)
+                if not isinstance(t0, ast.Name) or t0.id == name or t0.id in temps:
+                    break
+                temps[t0.id] = _subst(body[0].value, temps)
+                body = body[1:]
             if len(body) == 1:
                 st = body[0]
+                shown = _subst(st, temps) if temps else st
                 if isinstance(st, ast.Assign) and len(st.targets) == 1 and isinstance(st.targets[0], ast.Subscript) and is_name(st.targets[0].value, name):
-                    loops.append((n, st, filtered, fexpr))
+                    loops.append((n, st, filtered, fexpr, shown))
                 elif isinstance(st, ast.Expr) and isinstance(st.value, ast.Call) and isinstance(st.value.func, ast.Attribute) and is_name(st.value.func.value, name) and st.value.func.attr in ("append", "add", "extend") and len(st.value.args) == 1:
-                    loops.append((n, st, filtered, fexpr))
+                    loops.append((n, st, filtered, fexpr, shown))
     if len(inits) != 1 or len(loops) != 1:
         return None
     v = unwrap(inits[0].value)
@@ -290,13 +299,25 @@ def loop_as_comp(fi, name: str) -> VirtualComp | None:
     # no other writes to the accumulator
     for n in fi.own_nodes():
         if isinstance(n, ast.Call) and isinstance(n.func, ast.Attribute) and is_name(n.func.value, name) and n.func.attr in ("append", "add", "extend", "update", "pop", "clear", "insert", "remove", "setdefault"):
-            if n is not getattr(loops[0][1], "value", None):
+            if n is not getattr(loops[0][1], "value", None):  # (identity against the original store statement)
                 return None
         if isinstance(n, (ast.Assign, ast.AugAssign, ast.Delete)) and n is not loops[0][1] and n is not inits[0]:
             tg = n.targets if isinstance(n, (ast.Assign, ast.Delete)) else [n.target]
             if any((isinstance(t, ast.Subscript) and is_name(t.value, name)) or is_name(t, name) for t in tg):
                 return None
-    return VirtualComp(loops[0][0], inits[0], loops[0][1], loops[0][2], loops[0][3])
+    return VirtualComp(loops[0][0], inits[0], loops[0][4], loops[0][2], loops[0][3])
+
+
+def _subst(node: ast.AST, temps: dict[str, ast.AST]) -> ast.AST:
+    from .astutil import clone
+
+    class T(ast.NodeTransformer):
+        def visit_Name(self, n: ast.Name):  # noqa: N802
+            if isinstance(n.ctx, ast.Load) and n.id in temps:
+                return clone(temps[n.id])
+            return n
+
+    return T().visit(clone(node))
 
 
 def comp_of(deps: Deps, e: ast.AST | None) -> CompShape | None:
